@@ -14,6 +14,7 @@ from ml_pipeline_engine.dag.enums import EdgeField
 from ml_pipeline_engine.dag.enums import NodeField
 from ml_pipeline_engine.dag.errors import OneOfDoesNotHaveResultError
 from ml_pipeline_engine.dag.errors import RecurrentSubgraphDoesNotHaveResultError
+from ml_pipeline_engine.dag.errors import SwitchCaseDoesNotHaveBranchError
 from ml_pipeline_engine.dag.graph import DiGraph
 from ml_pipeline_engine.dag.graph import get_connected_subgraph
 from ml_pipeline_engine.dag.storage import DAGNodeStorage
@@ -290,6 +291,9 @@ class DAGRunConcurrentManager(DAGRunManagerLike):
                 continue
 
             branch_nodes[edge.get(EdgeField.case_branch)] = pred_id
+
+        if selected_branch_label not in branch_nodes:
+            raise SwitchCaseDoesNotHaveBranchError(switch_node_id, selected_branch_label)
 
         self._node_storage.set_switch_result(
             switch_node_id,
@@ -592,7 +596,19 @@ class DAGRunConcurrentManager(DAGRunManagerLike):
 
         logger.debug('Prepare Switch DAG node_id=%s', node_id)
 
-        self._add_case_result(node_id)
+        try:
+            self._add_case_result(node_id)
+
+        except SwitchCaseDoesNotHaveBranchError as error:
+            if dag.is_oneof:
+                # The same convention as for the other "no result" errors: inside a OneOf subgraph the error
+                # becomes the node's result so that the next OneOf subgraph could start the process.
+                self._node_storage.set_node_result(node_id, error)
+                await self.__unlock_itself(node_id)
+                await self.__unlock_descendants(node_id)
+                return None
+
+            await self.__raise_exc(error)
 
         return await self._run_dag(
             dag=self._get_reduced_dag(
